@@ -27,24 +27,28 @@ import (
 // C36 — streaming reads hold their transaction exactly as long as needed.
 //
 // Case line (see coq/Model/TxReaders.v):   <mode> <setup> <n> <ops>
-//   mode  : db  = database.WithTxReadClosers called directly with n synthetic lazy readers whose Read
-//                 queries the transaction (like sqlPartStore's lazyChunkReadCloser)
-//           st  = multi-range GetObject (n ranges) of a real metadatapart storage with the SQL part store
-//           dbfix / stfix = same, expected behaviour after fixes/C36-close-once.patch (driver "C36fixed")
-//   setup : ok | cerr (every inner reader's Close returns an error) | fnerr (fn returns an error) |
-//           beginerr (BeginTx fails)                                             (st: ok only)
-//   ops   : ';'-separated  R<i> | C<i>   ("-" = none)
+//
+//	mode  : db  = database.WithTxReadClosers called directly with n synthetic lazy readers whose Read
+//	              queries the transaction (like sqlPartStore's lazyChunkReadCloser)
+//	        st  = multi-range GetObject (n ranges) of a real metadatapart storage with the SQL part store
+//	        dbfix / stfix = same levels, model of the current code (close hook runs once per reader);
+//	        plain db / st select the model of the pre-fix code (hook on every Close)
+//	setup : ok | cerr (every inner reader's Close returns an error) | fnerr (fn returns an error) |
+//	        beginerr (BeginTx fails)                                             (st: ok only)
+//	ops   : ';'-separated  R<i> | C<i>   ("-" = none)
+//
 // Output: <setup result> <op results ';'-separated: res/rollbackHooks/txDone | "-"> rb=<k> done=<0|1> inner=<close counts|->
+// Driver "C36" generates dbfix/stfix lines (the code since /repo 057e4df: sync.Once per reader);
+// "C36prefix" generates db/st lines, for which the model computes the pre-fix machine (historical; only
+// useful against a tree with 057e4df reverted).
 type c36 struct{ fixed bool }
 
 func init() {
-	register("C36", c36{})
-	register("C36fixed", c36{fixed: true})
+	register("C36", c36{fixed: true})
+	register("C36prefix", c36{})
 }
 
 func (c36) Parallel() bool { return false }
-
-const c36Finding = "C36-double-close-early-rollback"
 
 // ---- database.Database double: counts rollbacks (through the rollback hook) and keeps the root tx ----
 type c36DB struct {
@@ -81,11 +85,15 @@ func (d *c36DB) BeginTx(ctx context.Context, opts *sql.TxOptions) (*database.TxC
 	}
 	return tx, nil
 }
-func (d *c36DB) PingContext(ctx context.Context) error   { return d.inner.PingContext(ctx) }
-func (d *c36DB) Close() error                            { return d.inner.Close() }
-func (d *c36DB) GetDatabaseType() database.DatabaseType  { return d.inner.GetDatabaseType() }
-func (d *c36DB) reset(fail bool)                         { d.mu.Lock(); d.roots, d.rollbacks, d.failBegin = nil, 0, fail; d.mu.Unlock() }
-func (d *c36DB) rollbackCount() int                      { d.mu.Lock(); defer d.mu.Unlock(); return d.rollbacks }
+func (d *c36DB) PingContext(ctx context.Context) error  { return d.inner.PingContext(ctx) }
+func (d *c36DB) Close() error                           { return d.inner.Close() }
+func (d *c36DB) GetDatabaseType() database.DatabaseType { return d.inner.GetDatabaseType() }
+func (d *c36DB) reset(fail bool) {
+	d.mu.Lock()
+	d.roots, d.rollbacks, d.failBegin = nil, 0, fail
+	d.mu.Unlock()
+}
+func (d *c36DB) rollbackCount() int { d.mu.Lock(); defer d.mu.Unlock(); return d.rollbacks }
 func (d *c36DB) root() *database.TxController {
 	d.mu.Lock()
 	defer d.mu.Unlock()
@@ -499,10 +507,7 @@ func (c c36) Run(in string, scratch string) Result {
 		tags = append(tags, "double-close")
 	}
 	if early {
-		tags = append(tags, "early-release-region")
-		if !c.fixed {
-			tags = append(tags, "kf:"+c36Finding)
-		}
+		tags = append(tags, "early-release-region") // where the pre-fix code released too early (fixed by 057e4df)
 	}
 	if seen == n && n > 0 {
 		tags = append(tags, "all-closed")
